@@ -161,7 +161,8 @@ class Inliner:
         # names the helper reads from an outer scope (module level, enclosing function) must mean the same in the caller:
         # a local of the caller with that name (e.g. a function-level `import sys`) would capture them
         free = {n.id for n in ast.walk(callee.node) if isinstance(n, ast.Name) and isinstance(n.ctx, ast.Load)} - _local_names(callee.node)
-        if free & _local_names(fi.node):
+        if free & _local_names(fi.node) and callee.parent is not fi:
+            # (a closure of this very function reads the function's own variables: they mean the same at the call site)
             return None
         f = call.func
         nested_direct = callee.parent is not None and isinstance(f, ast.Name) and (callee.parent is fi or callee.parent is fi.parent)
